@@ -57,6 +57,8 @@ def enc_event(e):
         data = enc_int(a[0], 4) + ("T%d" % a[1]).encode() + b"\0"
         if e["j"]:
             return obs.ev(e["m"], e["clk"], jumbo=data)
+        if e.get("jumbo_shaped"):
+            data = enc_int(len(data), 4) + data      # what the jumbo event stored: u32 size, then the data
         pl = data.ljust(e["sz"], b"\0")[:e["sz"]]
         return obs.ev(e["m"], e["clk"], pl)
     if e["j"]:
@@ -166,7 +168,8 @@ def corrupt(seed, c):
             elif kind == "nojumbo":
                 e = dict(st["evs"][p - 1])
                 e["j"] = False
-                e["sz"] = 8
+                e["sz"] = 12 if q == 1 else 8
+                e["jumbo_shaped"] = q == 1
                 evs[p - 1] = enc_event(e)
             elif kind == "json":
                 text = json.dumps(meta_json(meta), indent=1).encode()
@@ -266,7 +269,8 @@ def describe(c):
     if k == "pay":
         return "stream %d event %d payload size set to %d" % (c["stream"], c["p"], c["q"])
     if k == "nojumbo":
-        return "stream %d event %d jumbo flag removed" % (c["stream"], c["p"])
+        return "stream %d event %d jumbo flag removed%s" % (c["stream"], c["p"],
+                                                             " (payload = size, id, label)" if c["q"] == 1 else "")
     return "no corruption"
 
 
